@@ -1,6 +1,6 @@
 \* thorough, merge / DOT-centred: 3 or 4 types in the packages a, ab, b, bb (concatenations collide), each class with at
 \* most one field of a candidate or library type, x {none, H, P, HP} x 3 include filters; relation loop of
-\* MergeHeaderFile and node loop of BuildMapTree in every order
+\* MergeHeaderFile in every order
 SPECIFICATION Spec
 CONSTANTS
   Universe <- U_collide
